@@ -10,6 +10,23 @@ import time
 
 VERIF = os.path.dirname(os.path.dirname(os.path.abspath(__file__)))
 ALL = ["C%02d" % i for i in range(1, 20)]
+# --scratch: work on a scratch worktree of /repo and a scratch copy of /verif (outside both), so that /repo and
+# /verif stay usable meanwhile; the result is still written to the change's meta.json in /verif
+SCRATCH = "/tmp/vs"
+
+
+def setup_scratch():
+    repo, verif = os.path.join(SCRATCH, "repo"), os.path.join(SCRATCH, "verif")
+    os.makedirs(SCRATCH, exist_ok=True)
+    head = subprocess.run(["git", "-C", "/repo", "rev-parse", "HEAD"], capture_output=True, text=True).stdout.strip()
+    if not os.path.exists(repo):
+        subprocess.run(["git", "-C", "/repo", "worktree", "add", "-q", "--detach", repo, head], check=True)
+    subprocess.run(["git", "-C", repo, "checkout", "-q", "--detach", head], check=True)
+    subprocess.run(["git", "-C", repo, "checkout", "--", "."], check=True)
+    subprocess.run(["rsync", "-a", "--delete", "--exclude", "work/", "--exclude", ".git/", "--exclude", "replays/", "--exclude", "evidence/",
+                    VERIF + "/", verif + "/"], check=True)
+    os.makedirs(os.path.join(verif, "evidence"), exist_ok=True)
+    return repo, verif
 
 
 def main():
@@ -21,21 +38,24 @@ def main():
             checks = ALL if sys.argv[i + 1] == "all" else sys.argv[i + 1].split(",")
         if a == "--tier":
             tier = sys.argv[i + 1]
+    repo, verif = "/repo", VERIF
+    if "--scratch" in sys.argv:
+        repo, verif = setup_scratch()
     meta_p = os.path.join(d, "meta.json")
     meta = json.load(open(meta_p)) if os.path.exists(meta_p) else {}
     if checks is None:
         checks = [meta.get("property", "C01")]
-    st = subprocess.run(["git", "-C", "/repo", "status", "--porcelain", "--untracked-files=no"], capture_output=True, text=True).stdout.strip()
+    st = subprocess.run(["git", "-C", repo, "status", "--porcelain", "--untracked-files=no"], capture_output=True, text=True).stdout.strip()
     if st:
-        print("refusing: /repo has uncommitted changes:\n" + st)
+        print("refusing: " + repo + " has uncommitted changes:\n" + st)
         return 2
     patch = os.path.join(d, "patch.diff")
-    p = subprocess.run(["git", "-C", "/repo", "apply", patch], capture_output=True, text=True)
+    p = subprocess.run(["git", "-C", repo, "apply", patch], capture_output=True, text=True)
     if p.returncode != 0:
         # the tree has moved since the change was written (hooks, repairs): same edit, shifted context
-        p = subprocess.run(["patch", "-p1", "-F3", "--no-backup-if-mismatch", "-i", patch], cwd="/repo", capture_output=True, text=True)
+        p = subprocess.run(["patch", "-p1", "-F3", "--no-backup-if-mismatch", "-i", patch], cwd=repo, capture_output=True, text=True)
         if p.returncode != 0:
-            subprocess.run(["git", "-C", "/repo", "checkout", "--", "."], check=False)
+            subprocess.run(["git", "-C", repo, "checkout", "--", "."], check=False)
             print("patch does not apply:", p.stdout[-400:], p.stderr[-400:])
             return 2
         meta["applied_with_fuzz"] = True
@@ -43,7 +63,8 @@ def main():
     try:
         for c in checks:
             t0 = time.time()
-            q = subprocess.run([os.path.join(VERIF, "check"), c, "--tier", tier], cwd=VERIF, capture_output=True, text=True)
+            q = subprocess.run([os.path.join(verif, "check"), c, "--tier", tier], cwd=verif, capture_output=True, text=True,
+                               env=dict(os.environ, VERIF_REPO=repo))
             viol = [l for l in q.stdout.splitlines() if l.startswith("VIOLATION") or l.strip().startswith("key=")]
             res[c] = {"rc": q.returncode, "violations": [l.strip()[:200] for l in viol][:12], "wall_s": round(time.time() - t0, 1)}
             print(c, "rc=%d" % q.returncode, "CAUGHT" if q.returncode == 1 else ("tool-error" if q.returncode == 2 else "missed"), res[c]["wall_s"], "s")
@@ -52,8 +73,8 @@ def main():
             if q.returncode == 2:
                 print(q.stderr[-600:])
     finally:
-        subprocess.run(["git", "-C", "/repo", "checkout", "--", "."], check=False)
-        subprocess.run(["git", "-C", "/repo", "clean", "-fdq", "riscv_analysis/tests", "riscv_analysis_cli/tests"], check=False)
+        subprocess.run(["git", "-C", repo, "checkout", "--", "."], check=False)
+        subprocess.run(["git", "-C", repo, "clean", "-fdq", "riscv_analysis/tests", "riscv_analysis_cli/tests"], check=False)
     meta.setdefault("runs", {})
     meta["runs"].update(res)
     meta["caught_by"] = sorted(c for c, r in meta["runs"].items() if r["rc"] == 1)
